@@ -339,6 +339,12 @@ theorem der_writer_never_panics (buf : List Nat) (ops : List Op) (h : ∀ op ∈
 example : ∀ op ∈ [Op.startSeq, .utctime 252455615999, .endSeq, .endSeq], op.argsOk := by
   intro op h; simp at h; rcases h with rfl | rfl | rfl | rfl <;> simp [Op.argsOk] <;> decide
 
+/-- … and the only errors are `BufferTooSmall` (no room, a length ≥ 65536, the depth limit) and `Invalid` (an end
+without a start) -/
+theorem der_writer_errors (buf : List Nat) (ops : List Op) (h : ∀ op ∈ ops, op.argsOk) (e : Err)
+    (he : (W.new buf).run ops = .error e) : e = .bufferTooSmall ∨ e = .invalid :=
+  (Inv.new buf).run_errors ops h e he
+
 /-- (i) writer output = encode(tree): a balanced operation sequence (every start has its end) whose nesting stays
 below the depth limit, whose lengths the writer can encode and which fits the buffer (`needL`: an open compound
 holds 1 + 3 header bytes until it is closed) succeeds, and `as_slice()` is the encoding of the operations' tree -/
@@ -350,6 +356,12 @@ example : forest [.startSeq, .integer [5], .startOstr, .bool true, .endOstr, .en
     = some [.cons 0x30 [.prim 0x02 [5], .cons 0x04 [.prim 0x01 [0xFF]]]] := rfl
 example : Node.heightL [.cons 0x30 [.prim 0x02 [5], .cons 0x04 [.prim 0x01 [0xFF]]]] < MAX_DEPTH := by decide
 example : Node.needL [.cons 0x30 [.prim 0x02 [5], .cons 0x04 [.prim 0x01 [0xFF]]]] ≤ 16 := by decide
+
+/-- "fits the buffer" is exactly `needL ≤ buf.len()`: with less room the same sequence answers `BufferTooSmall` -/
+theorem der_writer_need_exact (buf : List Nat) (ops : List Op) (ns : List Node) (hb : forest ops = some ns)
+    (hh : Node.heightL ns < MAX_DEPTH) (hl : Node.lenOkL ns) (hfit : buf.length < Node.needL ns) :
+    (W.new buf).run ops = .error .bufferTooSmall :=
+  run_balanced_noSpace buf ops ns hb hh hl hfit
 
 /-- (i) … and the output parses as well-formed DER whose tree is the tree of the operations (`toDerL`: a
 compound OCTET STRING is a primitive whose content is the encoding of its children; `raw` bytes stand for the DER
